@@ -1,0 +1,7 @@
+//go:build !verif
+
+package container
+
+func verifMsg(dir string, e any) {}
+
+func verifPoint(name string) {}
